@@ -44,6 +44,12 @@ CHECKS["C18"] = {
     "note": "Trusted: serde_json's serialiser/parser (valid JSON out, trailing text rejected), clap, the decoded format_args! template encoding of this toolchain. Broken pipes and non-UTF-8 argv are outside the property's quantifier.",
     "technique": "path rules on main's MIR CFG (edge dominance, reachability after removal of an edge), def-use provenance of the printed value and of apply's arguments, manifest facts",
 }
+CHECKS["C19"] = {
+    "level": "other",
+    "text": "All paths of the two wrapper functions (Python ast, definite-assignment dataflow): each optional callable is rebound to json.dumps / json.loads on every path before it is called; the native apply (imported as `apply` of `.jsonlogic`) is called exactly once with (serializer(value), serializer(data)) resp. (value, data if data is not None else \"null\") — order, `is None` test and the literal; the result of deserializer(native result) is returned; no try/except, loops, other calls; the ImportError shim re-raises off Windows. Native side (MIR, feature python): from_str::<Value> on each argument, apply(&rule,&data) in that order, Value::to_string of the Ok payload, the three errors converted and propagated with none discarded, Err mapped to PyErr::new::<ValueError,_> only, no panic source in the binding functions, exported as `apply` of module `jsonlogic`; setup.py builds jsonlogic_rs.jsonlogic with feature python.",
+    "note": "Trusted: CPython semantics of the straight-line wrapper, rust-cpython glue, json.dumps/loads round-trips (library behaviour outside the repository). Panic-freedom of the library under the python configuration is C01.",
+    "technique": "Python AST dataflow (definite assignment of defaults, argument-shape rules) + MIR def-use rules on the binding + setup.py AST facts",
+}
 NOT_APPLICABLE = {}
 for i in range(1, 20):
     p = "C%02d" % i
